@@ -89,7 +89,7 @@ class LiteralToken(RegexpBaseToken):
         super().__init__(*args, *kwargs)
 
         if self.value[2]:
-            if len(self.value[2]) > 400 or len(self.value[5] or '') > 400:
+            if len(self.value[2]) > 400 or len(self.value[5] or '') > 400 or len(self.value[7] or '') > 400:
                 # no Excel number has that many digits, and int() refuses to read more than 4300 of them with an error of its own
                 raise E2PyclParserException(f'Numeric literal of {len(self.value[0])} characters is out of range')
             # TODO in theory, the degree can be calculated using the expression
